@@ -162,6 +162,19 @@ CLAIMED = {
         note="Coq kernel; no axioms (Q); GPU/solver-name checks exercised by the oracle only; sampling defect is a known finding.",
         technique="Coq proofs over Q + exact-rational correspondence + rejection/no-residue oracle",
         design="7/C19"),
+    "C18": dict(
+        text="Coq theorems for every vertex list: the points setter stores a closed, counter-clockwise ring and is idempotent; "
+             "translation and rotation preserve the signed area of a closed ring, scaling about any origin multiplies it by "
+             "fx*fy (reflections included), reversal flips the orientation. Correspondence: stored vertices vs "
+             "Model.Geom.normalise (bit-exact) and transformed vertices vs the model's affine maps (PrimFloat); set-operation "
+             "results vs the model's crossing-number test evaluated EXACTLY over Q on the operands, combined pointwise. Oracle: "
+             "areas, point mapping under the transforms, no aliasing/mutation by non-in-place operations and copies, chains of "
+             "set operations, operator forms, Device membership = film and not holes, device transforms leave the original "
+             "untouched. PARTIAL: GEOS clipping and matplotlib membership are exercised, not proved; 'points map consistently' "
+             "is checked, the membership-invariance theorem is not proved.",
+        note="Coq kernel; stdlib real axioms; shapely/GEOS and matplotlib Path are oracles with the pointwise contract measured.",
+        technique="Coq proofs of the polygon algebra + exact-rational crossing-number correspondence for set operations",
+        design="7/C18"),
 }
 
 PENDING_REASON = "check not built yet in this session (planned, see DESIGN.md section 7); not claimed until it runs"
